@@ -67,9 +67,12 @@ def run(tier, seed):
         a, b = g.pair()
         mid = None
         if rng.random() < 0.5:
-            # an intermediate with the same shape
-            _, mid = g.pair()
-            if eval(mid, ns).dimension is not eval(a, ns).dimension:
+            # an intermediate of the same dimension: the source re-spelt unit by unit, or the source under a prefix
+            try:
+                mid = g.third(a)
+                if eval(mid, ns).dimension is not eval(a, ns).dimension or eval(mid, ns) is eval(a, ns):
+                    mid = None
+            except Exception:
                 mid = None
         mag, k = rng.choice(mags), rng.choice([2, -3, 0.5, 10])
         if isinstance(mag, Decimal):
@@ -89,6 +92,15 @@ def run(tier, seed):
             cls = classify(a, b, "WRONG", "relative error 1", ns) if clause in ("route", "round-trip") else "wrong-value"
             if clause == "route" and mid is not None and cls == "wrong-value":
                 cls = classify(a, mid, "WRONG", "relative error 1", ns)
+            if clause == "route" and mid is not None and cls == "wrong-value":
+                cls = classify(mid, b, "WRONG", "relative error 1", ns)
+            if clause == "route" and mid is not None and cls == "wrong-value":
+                # the recorded finding is about the units of dimension Number of a conversion being of different KINDS: on a route
+                # the kinds of all three units count (1 m -> deg*m directly is 1, through rad*ly it is 57.3)
+                import measured
+                kinds = {f for u in (a, b, mid) for f in eval(u, ns).factors if f.dimension is measured.Number and f is not measured.One}
+                if len(kinds) >= 2:
+                    cls = "wrong-value:dimensionless-units"
             if clause == "route" and any(n_ in a + b + (mid or "") for n_ in ("TonOfRefrigeration", "BoilerHorsepower")):
                 cls = "wrong-value:BTU-IT-vs-thermochemical"
             key = clause if cls == "wrong-value" else "known:" + cls.split(":", 1)[1] + ":" + clause
